@@ -7,7 +7,7 @@ from ..core import AnalysisError, call_name, dotted, kwarg, norm, walk_no_nested
 from ..guards import sites
 from ..registry import describe, rule
 from .. import tmatch as tm
-from ..util import calls_named, returns_of
+from ..util import resolved_fn, calls_named, returns_of
 from . import c14, c16
 
 EI = "pgmpy/inference/ExactInference.py"
@@ -89,9 +89,10 @@ def messages(rc):
     # schedule
     c = cls.methods["_calibrate_junction_tree"]
     init = tm.has(c.node, "self.clique_beliefs = {_c: self.junction_tree.get_factors(_c) for _c in self.junction_tree.nodes()}")
-    calls = sites(c.node, lambda n: isinstance(n, ast.Call) and call_name(n) == "_update_beliefs")
+    crn = resolved_fn(c)
+    calls = sites(crn, lambda n: isinstance(n, ast.Call) and call_name(n) == "_update_beliefs")
     up = down = False
-    roots = [n for n in walk_no_nested(c.node) if isinstance(n, ast.For) and tm.is_(n.iter, "self.junction_tree.nodes()") is not None and isinstance(n.target, ast.Name)]
+    roots = [n for n in walk_no_nested(crn) if isinstance(n, ast.For) and tm.is_(n.iter, "self.junction_tree.nodes()") is not None and isinstance(n.target, ast.Name)]
     root = roots[0].target.id if roots else None
     for s in calls:
         opk = dotted(kwarg(s.node, "operation"))
@@ -103,10 +104,10 @@ def messages(rc):
             continue
         lvn = lv[0].id
         b1 = tm.is_(s.node, "self._update_beliefs(_n, _root, operation=operation)", {"_n": lvn, "_root": root})
-        if b1 is not None and isinstance(lv[1], ast.Name) and tm.has(c.node, "_NB = self.junction_tree.neighbors(_root)", {"_NB": lv[1].id, "_root": root}):
+        if b1 is not None and tm.is_(lv[1], "self.junction_tree.neighbors(_root)", {"_root": root}) is not None:
             up = True
         b2 = tm.is_(s.node, "self._update_beliefs(_e[0], _e[1], operation=operation)", {"_e": lvn})
-        if b2 is not None and isinstance(lv[1], ast.Name) and (tm.has(c.node, "_BE = __F.bfs_edges(self.junction_tree, _root)", {"_BE": lv[1].id, "_root": root})):
+        if b2 is not None and tm.is_(lv[1], "__F.bfs_edges(self.junction_tree, _root)", {"_root": root}) is not None:
             down = True
     if not init:
         rc.fail(c, c.node, "clique beliefs start as the clique potentials of the junction tree", construct="initial beliefs")
@@ -126,19 +127,18 @@ def messages(rc):
     # convergence
     k = cls.methods["_is_converged"]
     okk = False
-    for lp in [n for n in walk_no_nested(k.node) if isinstance(n, ast.For) and isinstance(n.target, ast.Name) and tm.is_(n.iter, "self.junction_tree.edges()") is not None]:
-        B = {"_e": lp.target.id}
-        _, b1 = tm.find(lp, "_SEP = frozenset(_e[0]).intersection(frozenset(_e[1]))", B)
-        _, b2 = tm.find(lp, "_KEY = frozenset(_e)", b1 or B)
-        if b1 is None or b2 is None:
+    krn = resolved_fn(k)
+    SEP = "frozenset(_e[0]).intersection(frozenset(_e[1]))"
+    MA = f"getattr(self.clique_beliefs[_e[0]], operation)(list(frozenset(_e[0]) - {SEP}), inplace=False)"
+    MB = f"getattr(self.clique_beliefs[_e[1]], operation)(list(frozenset(_e[1]) - {SEP}), inplace=False)"
+    for s_ in sites(krn, lambda n: isinstance(n, ast.Return) and isinstance(n.value, ast.Constant) and n.value.value is False):
+        if not any(tm.is_(it, "self.junction_tree.edges()") is not None for _, it in s_.loops):
             continue
-        _, m1 = tm.find(lp, "_MA = getattr(self.clique_beliefs[_e[0]], operation)(list(frozenset(_e[0]) - _SEP), inplace=False)", b2)
-        _, m2 = tm.find(lp, "_MB = getattr(self.clique_beliefs[_e[1]], operation)(list(frozenset(_e[1]) - _SEP), inplace=False)", m1 or b2)
-        if m1 is None or m2 is None:
-            continue
-        for s_ in sites(lp, lambda n: isinstance(n, ast.Return) and isinstance(n.value, ast.Constant) and n.value.value is False):
-            if any(pol and tm.is_(t, "_MA != _MB or _MA != self.sepset_beliefs[_KEY]", m2) is not None for t, pol in s_.conds):
-                okk = True
+        ev = [dotted(t_) for t_, it in s_.loops if tm.is_(it, "self.junction_tree.edges()") is not None][-1]
+        cs = [(t, pol) for t, pol in s_.conds]
+        # either one disjunction, or the walker's split of it into alternatives
+        if any(pol and tm.is_(t, f"{MA} != {MB} or {MA} != self.sepset_beliefs[frozenset(_e)]", {"_e": ev}) is not None for t, pol in cs):
+            okk = True
     rc.ob(f"_is_converged compares both adjacent marginals and the sepset belief: {okk}")
     if not okk:
         rc.fail(k, k.node, "calibration = for every edge both cliques' marginals over the sepset agree with each other and with the sepset belief", construct="convergence test")
@@ -154,13 +154,8 @@ def messages(rc):
         rc.fail(q, q.node, "query sub-tree potentials must be the root's belief and, for every other clique, its belief divided by the sepset belief towards its parent",
                 construct="query potentials")
     cal = sites(q.node, lambda n: isinstance(n, ast.Call) and tm.is_(n, "self.calibrate()") is not None)
-    _, bi = tm.find(q.node, "_IC = self._is_converged(operation=operation)")
-    def _guard(t, pol):
-        if bi is None:
-            return False
-        return (tm.is_(t, "not _IC", bi) is not None and pol) or (tm.is_(t, "_IC", bi) is not None and not pol) or \
-            (tm.is_(t, "not self._is_converged(operation=operation)") is not None and pol)
-    if not cal or not any(_guard(t, pol) or (tm.is_(t, "not self._is_converged(operation=operation)") is not None and pol) for s_ in cal for t, pol in s_.conds):
+    cal = sites(resolved_fn(q), lambda n: isinstance(n, ast.Call) and tm.is_(n, "self.calibrate()") is not None)
+    if not cal or not any(tm.is_(t, "self._is_converged(operation=operation)") is not None and not pol for s_ in cal for t, pol in s_.conds):
         rc.fail(q, q.node, "a query must calibrate the tree first", construct="calibrate before query")
 
 
